@@ -48,7 +48,7 @@ class RecordingDB(object):
     failed = k < self.nbits and ((self.faults >> k) & 1) == 1
     self.calls.append((kind, metric, payload, not failed, metric in self.files))
     if failed:
-      raise BackendFault('%s(%s)' % (kind, metric))
+      raise BackendFault('backend unavailable')     # the same text every time, as a dead disk or socket gives
 
   def exists(self, metric):
     self._maybe_fail('exists', metric, None)
